@@ -6,6 +6,7 @@ From Flocq Require Import Core.
 From VQ Require Import Num Model.Vec Model.Scalar Proofs.ScalarProofs Glue.ScalarGlue Glue.Pin_p_fsq_quantize Glue.Pin_k_fsq_offset.
 From VQ Require Import Model.Einops Model.Layout Glue.EinopsGlueBase Glue.EinopsGlueScalar.
 From VQ Require Import Glue.Pin_fp_C05.
+From VQ Require Import Model.Strides Proofs.StridesProofs Glue.Pin_inv_view_writes.
 Import ListNotations.
 Open Scope R_scope.
 
@@ -233,3 +234,36 @@ Theorem C05_tie_source_footprint :
   fp_C05.fp_C05 = pinned_fp_C05.
 Proof. exact (@Pin_fp_C05.pin_fp_C05). Qed.
 Print Assumptions C05_tie_source_footprint.
+
+Theorem C05_reshape_write_lands_when_contiguous :
+  forall (A : Type) (zero : A) (b n d : nat) (m : storage A) (rows : nat -> bool) (i j k : nat),
+       (i < b)%nat ->
+       (j < n)%nat ->
+       (k < d)%nat ->
+       get A (write_through_reshape A zero m (contiguous b n d) rows) (contiguous b n d) i j k =
+       where_rows A zero m (contiguous b n d) rows i j k.
+Proof. exact (@StridesProofs.contiguous_write_lands). Qed.
+Print Assumptions C05_reshape_write_lands_when_contiguous.
+
+Theorem C05_reshape_write_lost_on_permuted_view :
+  forall (A : Type) (zero : A) (b n d : nat) (m : storage A) (rows : nat -> bool),
+       (2 <= b)%nat ->
+       (2 <= n)%nat -> (1 <= d)%nat -> write_through_reshape A zero m (batch_permuted b n d) rows = m.
+Proof. exact (@StridesProofs.permuted_write_is_lost). Qed.
+Print Assumptions C05_reshape_write_lost_on_permuted_view.
+
+Theorem C05_write_through_reshape_refuted :
+  forall (A : Type) (zero one : A),
+       one <> zero ->
+       exists (t : t3) (m : storage A) (rows : nat -> bool) (i j k : nat),
+         (i < nb t)%nat /\
+         (j < nn t)%nat /\
+         (k < nd t)%nat /\
+         get A (write_through_reshape A zero m t rows) t i j k <> where_rows A zero m t rows i j k.
+Proof. exact (@StridesProofs.write_through_reshape_refuted). Qed.
+Print Assumptions C05_write_through_reshape_refuted.
+
+Theorem C05_tie_no_new_write_through_view_handles :
+  inv_view_writes.inv_view_writes = pinned_inv_view_writes.
+Proof. exact (@Pin_inv_view_writes.pin_inv_view_writes). Qed.
+Print Assumptions C05_tie_no_new_write_through_view_handles.
